@@ -21,6 +21,7 @@ type zzBackend struct {
 	calls    int
 	resp     func(req *http.Request) *http.Response
 	fail     []bool // fail[i]: i-th call returns an error
+	failRead int    // a failing call reads this many body bytes first (<0: the whole body)
 }
 
 var zzErrBackend = io.ErrUnexpectedEOF
@@ -30,10 +31,17 @@ func (b *zzBackend) RoundTrip(req *http.Request) (*http.Response, error) {
 	b.calls++
 	b.seen = req
 	b.seenBody = nil
+	failing := i < len(b.fail) && b.fail[i]
 	if req.Body != nil {
-		b.seenBody, _ = io.ReadAll(req.Body)
+		if failing && b.failRead >= 0 {
+			buf := make([]byte, b.failRead)
+			n, _ := io.ReadFull(req.Body, buf)
+			b.seenBody = buf[:n]
+		} else {
+			b.seenBody, _ = io.ReadAll(req.Body)
+		}
 	}
-	if i < len(b.fail) && b.fail[i] {
+	if failing {
 		return nil, zzErrBackend
 	}
 	if b.resp != nil {
@@ -140,9 +148,14 @@ func zzRequestSide(mode int) {
 	case hop < len(zzHopNames):
 		hdr[zzHopNames[hop]] = []string{"hopvalue"}
 	case hop == len(zzHopNames):
-		listed = "X-Listed"
-		hdr["Connection"] = []string{"close, X-Listed"}
-		hdr["X-Listed"] = []string{"l"}
+		// the client names an extension header in Connection, in any letter case (field names are
+		// case-insensitive; most clients write connection options in lower case)
+		listed = "X-Li"
+		tok := verifrt.String("conn-token", 4)
+		verifrt.Assume((tok[0] == 'x' || tok[0] == 'X') && tok[1] == '-' && (tok[2] == 'l' || tok[2] == 'L') && (tok[3] == 'i' || tok[3] == 'I'))
+		sep := []string{", ", ","}[verifrt.Choose("conn-sep", 2)]
+		hdr["Connection"] = []string{"close" + sep + tok}
+		hdr["X-Li"] = []string{"l"}
 	}
 	prior := varyHeaders && verifrt.Bool("prior-xff")
 	if prior {
@@ -159,6 +172,9 @@ func zzRequestSide(mode int) {
 	r := &http.Request{Method: method, URL: &url.URL{Path: path, RawPath: rawPath, RawQuery: query}, Header: hdr, Host: "site",
 		RemoteAddr: remote, ContentLength: int64(len(body)), Body: io.NopCloser(bytes.NewReader(body)), Proto: "HTTP/1.1", ProtoMajor: 1, ProtoMinor: 1}
 	w := &zzClientW{}
+	if rawPath != "" && without != "" {
+		verifrt.Tag("encoded-slash-directly-after-without-prefix") // input class of the recorded known finding
+	}
 	status, err := p.ServeHTTP(w, r)
 	verifrt.Assert(status == 0 && err == nil, "proxied")
 	verifrt.Assert(be.calls == 1, "one-attempt")
@@ -361,7 +377,8 @@ func VerifH04cRetry() {
 	}
 	u := &staticUpstream{from: "/", MaxFails: 1, FailTimeout: 10 * time.Second, TryDuration: 5 * time.Second, TryInterval: 250 * time.Millisecond,
 		upstreamHeaders: up, Policy: &First{}}
-	be1 := &zzBackend{fail: []bool{true}}
+	// the first backend fails before reading the body, after one byte, or after all of it
+	be1 := &zzBackend{fail: []bool{true}, failRead: verifrt.Choose("first-backend-reads", 3) - 1}
 	be2 := &zzBackend{}
 	for i, be := range []*zzBackend{be1, be2} {
 		h, err := u.NewHost("http://backend" + []string{"1", "2"}[i] + base + targetQuery)
